@@ -221,6 +221,15 @@ class Mixed:
             return
         T = self.r.choice(sorted(INTTYPES))
         lo, hi = INTTYPES[T]
+        spelt = {"12": 12, "0x10": 16, "010": 8, "+12": 12, "16 units": 16}
+        last = getattr(self, "last_set", {}).get(h)
+        if last and last[2] in spelt and self.r.random() < 0.5:
+            # the key holds a text that spells this very number in another way: the setter replaces the TEXT all the same
+            g, k, n = last[0], last[1], spelt[last[2]]
+            self.add("set %s %d %s %s %d" % (T, h, hx(g), hx(k), n),
+                     lambda ev, root, h=h, g=g, k=k, n=n, T=T: [{"e": "set", "T": T, "h": h, "g": opt(g), "k": opt(k), "v": [], "neg": False, "mag": [int(c) for c in str(n)], "rc": ev["rc"]}])
+            self.op_get_exact(h, g, k)
+            return
         # (12, 16, 8, 10: the numbers that texts of the value pool and of the files spell in another way - "12", "0x10", "010" ...)
         n = self.r.choice([lo, hi, 0, 1, -1 if lo < 0 else 7, self.r.randint(lo, hi), 12, 16, 8, 10, 12, 16])
         self.add("set %s %d %s %s %d" % (T, h, hx(g), hx(k), n),
@@ -265,8 +274,15 @@ class Mixed:
         self.live.add(h)
         self.src[h] = []
 
+    def op_get_exact(self, h, g, k):
+        self.add("get String %d %s %s" % (h, hx(g), hx(k)),
+                 lambda ev, root, h=h, g=g, k=k: [{"e": "get", "h": h, "g": opt(g), "k": opt(k), "rc": ev["rc"], "out": opt(ev.get("out"))}])
+
     def op_set(self, h):
         g, k, v = self.r.choice(SECS), self.r.choice(self.keys), self.r.choice(VALS)
+        if not hasattr(self, "last_set"):
+            self.last_set = {}
+        self.last_set[h] = (g, k, v)
         self.src.setdefault(h, []).append((g.strip("[]") if g else None, k))
         self.add("set String %d %s %s %s" % (h, hx(g), hx(k), hx(v)),
                  lambda ev, root, h=h, g=g, k=k, v=v: [{"e": "set", "h": h, "g": opt(g), "k": opt(k), "v": opt(v), "rc": ev["rc"]}])
